@@ -1,1 +1,340 @@
-// placeholder
+// C06 / C07: the incremental collector, one step at a time.
+//
+// Whole collection cycles are out of CBMC's reach (measured, DESIGN section 1), so the
+// schedule dimension is discharged by single-step obligations on two-object heaps whose
+// COLOURS are symbolic.  Colours: white = !visited, gray = visited && on gray_stack,
+// black = visited && !on gray_stack.  The invariant kept during Marking is the strong
+// tricolour invariant on heap edges,
+//     (S)  no black object holds a reference to a white object,
+// together with "gray <=> on gray_stack".  Roots may point at white objects while marking;
+// they are rescanned when the gray stack drains, before the switch to sweeping (G4).
+//   G1  write barrier: SetIndex / SetField / ArrayPush never create a black->white edge
+//   G2  allocation while marking produces a gray object (visited and on the gray stack)
+//   G3  one process_gray iteration blackens one gray object and grays its white children
+//   G4  Marking -> Sweeping happens only when every root-referenced object is marked
+//   G5  one sweep iteration frees exactly an unmarked object / keeps and resets a marked one
+//   G6  start_mark_phase grays every root-referenced object (stack and string operands)
+//   G7  maybe_gc starts a cycle exactly when the heap doubled since the last cycle
+// From S + G4: at the switch all reachable objects are black; from G5 only unmarked objects
+// are freed.  That composition is an argument, not a solver result.
+
+pub(super) fn header<'a>(v: Value) -> &'a mut ObjectHeader {
+    unsafe { &mut *(v.0 as *mut ObjectHeader) }
+}
+pub(super) fn on_gray(t: &VmGreenThread, v: Value) -> bool {
+    let mut k = 0;
+    while k < t.gray_stack.len() {
+        if t.gray_stack[k] as u64 == v.0 {
+            return true;
+        }
+        k += 1;
+    }
+    false
+}
+// 0 white, 1 gray, 2 black
+pub(super) fn paint(t: &mut VmGreenThread, v: Value, colour: u8) {
+    header(v).visited = colour != 0;
+    if colour == 1 {
+        t.gray_stack.push(v.0 as *mut ObjectHeader);
+    }
+}
+pub(super) fn colour_of(t: &VmGreenThread, v: Value) -> u8 {
+    if !header(v).visited { 0 } else if on_gray(t, v) { 1 } else { 2 }
+}
+pub(super) fn sym_colour() -> u8 {
+    let c: u8 = kani::any();
+    kani::assume(c <= 2);
+    c
+}
+
+// ---- G1: write barrier ----
+macro_rules! barrier_harness {
+    ($name:ident, $kind:expr) => {
+        vm_harness! {
+            #[kani::unwind(9)]
+            fn $name() {
+                // $kind: 0 SetIndex, 1 SetField, 2 ArrayPush
+                let instr = match $kind {
+                    0 => Instr::SetIndex(enc(T, 0), enc(T, 0)),
+                    1 => Instr::SetField(0, enc(T, 0)),
+                    _ => Instr::ArrayPush(enc(T, 0), enc(T, 0)),
+                };
+                let mut t = mk_thread(vec![instr, Instr::Stop], vec![], vec![]);
+                let child = mk_string(&mut t, [b'x', 0, 0], 1);
+                let parent: Value = if $kind == 1 {
+                    Value::from(StructObject::new(vec![Value::from(0i64)], &mut t))
+                } else {
+                    let mut d = Vec::with_capacity(4);
+                    d.push(Value::from(0i64));
+                    Value::from(ArrayObject::new(d, &mut t))
+                };
+                t.gc_state = GcState::Marking;
+                let (pc_, cc) = (sym_colour(), sym_colour());
+                paint(&mut t, parent, pc_);
+                paint(&mut t, child, cc);
+                match $kind {
+                    0 => { t.value_stack.push(parent); t.value_stack.push(Value::from(0i64)); t.value_stack.push(child); }
+                    1 => { t.value_stack.push(child); t.value_stack.push(parent); }
+                    _ => { t.value_stack.push(parent); t.value_stack.push(child); }
+                }
+                t.pc.0 = 0;
+                assert!(t.step());
+                let (p2, c2) = (colour_of(&t, parent), colour_of(&t, child));
+                assert!(!(p2 == 2 && c2 == 0), "no black -> white edge after the store");
+                assert!(p2 == pc_, "the parent's colour is unchanged");
+                assert!(c2 == cc || (cc == 0 && c2 == 1), "the child is at most grayed");
+                assert!(header(child).visited == on_gray(&t, child) || c2 == 2, "gray <=> on the gray stack");
+                kani::cover!(pc_ == 2 && cc == 0, "req: black parent, white child");
+                std::mem::forget(t);
+            }
+        }
+    };
+}
+barrier_harness!(c06_barrier_set_index, 0);
+barrier_harness!(c06_barrier_set_field, 1);
+barrier_harness!(c06_barrier_array_push, 2);
+
+// ---- G2: allocation colour ----
+vm_harness! {
+    #[kani::unwind(9)]
+    fn c06_alloc_while_marking_is_gray() {
+        let mut t = mk_thread(vec![Instr::ConstructStruct(1), Instr::ConstructVariant { tag: 3 }, Instr::Stop], vec![], vec![]);
+        let child = mk_string(&mut t, [b'x', 0, 0], 1);
+        let phase: u8 = kani::any();
+        kani::assume(phase <= 2);
+        t.gc_state = match phase { 0 => GcState::Idle, 1 => GcState::Marking, _ => GcState::Sweeping { index: 0 } };
+        header(child).visited = false;
+        t.value_stack.push(child);
+        t.pc.0 = 0;
+        assert!(t.step());
+        let s = t.value_stack[0];
+        assert!(s.1 == ValueTag::Struct && in_heap(&t, s), "registered with the collector");
+        t.pc.0 = 1;
+        assert!(t.step());
+        let v = t.value_stack[0];
+        assert!(v.1 == ValueTag::Variant && in_heap(&t, v));
+        if phase == 1 {
+            assert!(header(s).visited && on_gray(&t, s), "a struct allocated while marking is gray (its fields get scanned)");
+            assert!(header(v).visited && on_gray(&t, v), "a variant allocated while marking is gray");
+        } else if phase == 2 {
+            assert!(header(s).visited && header(v).visited, "objects allocated while sweeping survive this cycle");
+        } else {
+            assert!(!header(s).visited && !header(v).visited, "objects allocated while idle start white");
+        }
+        kani::cover!(phase == 1, "req: marking");
+        std::mem::forget(t);
+    }
+}
+
+// ---- G3: one process_gray iteration ----
+macro_rules! process_gray_harness {
+    ($name:ident, $kind:expr) => {
+        vm_harness! {
+            #[kani::unwind(9)]
+            fn $name() {
+                // parent kind: 0 array, 1 struct, 2 variant; one child string of symbolic colour
+                let mut t = mk_thread(vec![Instr::Stop], vec![], vec![]);
+                let child = mk_string(&mut t, [b'x', 0, 0], 1);
+                let other = mk_string(&mut t, [b'y', 0, 0], 1);
+                let parent: Value = match $kind {
+                    0 => { let mut d = Vec::with_capacity(2); d.push(child); d.push(Value::from(5i64)); Value::from(ArrayObject::new(d, &mut t)) }
+                    1 => Value::from(StructObject::new(vec![Value::from(5i64), child], &mut t)),
+                    _ => Value::from(EnumObject::new(1, child, &mut t)),
+                };
+                t.gc_state = GcState::Marking;
+                let cc = sym_colour();
+                let oc = sym_colour();
+                kani::assume(oc != 1); // `other` is an unrelated object that is not gray
+                paint(&mut t, other, oc);
+                paint(&mut t, child, cc);
+                paint(&mut t, parent, 1); // parent gray, on top of the gray stack
+                let mut batch: usize = 1;
+                t.process_gray(&mut batch);
+                assert!(colour_of(&t, parent) == 2, "the scanned object is black");
+                let c2 = colour_of(&t, child);
+                assert!(c2 != 0, "its child is no longer white");
+                assert!(c2 == cc || (cc == 0 && c2 == 1), "a white child becomes gray; other colours are kept");
+                assert!(colour_of(&t, other) == oc, "no spurious marking of unrelated objects");
+                if c2 == 1 {
+                    assert!(t.gc_state == GcState::Marking, "still marking while gray objects remain");
+                }
+                kani::cover!(cc == 0, "req: white child");
+                kani::cover!(cc == 2, "req: black child");
+                std::mem::forget(t);
+            }
+        }
+    };
+}
+process_gray_harness!(c06_process_gray_array, 0);
+process_gray_harness!(c06_process_gray_struct, 1);
+process_gray_harness!(c06_process_gray_variant, 2);
+
+// ---- G4: the switch to sweeping ----
+vm_harness! {
+    #[kani::unwind(9)]
+    fn c06_no_sweep_while_a_root_is_white() {
+        // the gray stack has drained; the operand stack (or a parked string operand) holds an
+        // object of symbolic colour, e.g. popped from an array after the roots were scanned
+        let mut t = mk_thread(vec![Instr::Stop], vec![], vec![]);
+        let obj = mk_string(&mut t, [b'x', 0, 0], 1);
+        t.gc_state = GcState::Marking;
+        let c = sym_colour();
+        kani::assume(c != 1);
+        paint(&mut t, obj, c);
+        let place: u8 = kani::any();
+        match place % 3 {
+            0 => t.value_stack.push(obj),
+            1 => t.string_operand1 = obj,
+            _ => t.string_operand2 = obj,
+        }
+        let mut batch: usize = kani::any();
+        kani::assume(batch >= 1);
+        t.process_gray(&mut batch);
+        if let GcState::Sweeping { .. } = t.gc_state {
+            assert!(header(obj).visited, "sweeping starts only when every root-referenced object is marked");
+        }
+        if c == 0 {
+            assert!(header(obj).visited || t.gc_state == GcState::Marking, "a white root is either marked now or marking continues");
+        }
+        kani::cover!(c == 0, "req: white root at drain time");
+        kani::cover!(c == 2, "req: black root");
+        std::mem::forget(t);
+    }
+}
+
+// ---- G5: one sweep iteration ----
+vm_harness! {
+    #[kani::unwind(9)]
+    fn c07_sweep_step() {
+        let mut t = mk_thread(vec![Instr::Stop], vec![], vec![]);
+        let a = mk_string(&mut t, [b'a', 0, 0], 1);
+        let mut d = Vec::with_capacity(2);
+        d.push(Value::from(1i64));
+        let b = Value::from(ArrayObject::new(d, &mut t));
+        let (va, vb): (bool, bool) = (kani::any(), kani::any());
+        header(a).visited = va;
+        header(b).visited = vb;
+        t.gc_state = GcState::Sweeping { index: 0 };
+        let size_before = t.heap_size;
+        let na = header(a).nbytes();
+        t.sweep(1); // one unit of work = one object
+        if va {
+            assert!(t.heap_list.len() == 2 && t.heap_list[0] as u64 == a.0, "a marked object is kept");
+            assert!(!header(a).visited, "and reset to white for the next cycle");
+            assert!(t.heap_size == size_before);
+            assert!(t.gc_state == GcState::Sweeping { index: 1 }, "the sweep position advances");
+        } else {
+            assert!(t.heap_list.len() == 1 && t.heap_list[0] as u64 == b.0, "an unmarked object leaves the heap list");
+            assert!(t.heap_size == size_before - na, "its bytes are returned to the accounting");
+            assert!(t.gc_state == GcState::Sweeping { index: 0 }, "the swapped-in object is examined next");
+        }
+        assert!(header(b).visited == vb, "objects not yet reached are untouched");
+        // finish the sweep
+        t.sweep(usize::MAX);
+        assert!(t.gc_state == GcState::Idle, "the cycle ends when the list is exhausted");
+        assert!(t.last_gc_heap_size == t.heap_size, "pacing baseline updated");
+        assert!(t.heap_list.len() == (va as usize) + (vb as usize), "exactly the marked objects survive");
+        kani::cover!(!va && vb, "req: first freed, second kept");
+        kani::cover!(va && !vb, "req: first kept, second freed");
+        std::mem::forget(t);
+    }
+}
+
+// ---- G6: root scan ----
+vm_harness! {
+    #[kani::unwind(9)]
+    fn c06_start_mark_grays_roots() {
+        let mut t = mk_thread(vec![Instr::Stop], vec![], vec![]);
+        let on_stack = mk_string(&mut t, [b'a', 0, 0], 1);
+        let in_local = Value::from(StructObject::new(vec![Value::from(1i64)], &mut t));
+        let parked = mk_string(&mut t, [b'b', 0, 0], 1);
+        let unreachable = mk_string(&mut t, [b'c', 0, 0], 1);
+        t.value_stack.push(in_local);
+        t.value_stack.push(Value::from(7i64));
+        t.value_stack.push(on_stack);
+        let which: bool = kani::any();
+        if which { t.string_operand1 = parked; } else { t.string_operand2 = parked; }
+        t.start_mark_phase();
+        assert!(t.gc_state == GcState::Marking);
+        assert!(colour_of(&t, on_stack) == 1 && colour_of(&t, in_local) == 1, "objects on the operand stack and in locals are gray");
+        assert!(colour_of(&t, parked) == 1, "operands of a suspended string operation are roots");
+        assert!(colour_of(&t, unreachable) == 0, "nothing else is marked");
+        assert!(t.gray_stack.len() == 3);
+        kani::cover!(which, "req: parked in operand 1");
+        std::mem::forget(t);
+    }
+}
+
+// ---- G7: pacing ----
+vm_harness! {
+    #[kani::unwind(9)]
+    fn c07_cycle_starts_when_heap_doubled() {
+        let mut t = mk_thread(vec![Instr::Stop], vec![], vec![]);
+        let hs: usize = kani::any();
+        let last: usize = kani::any();
+        kani::assume(hs < (1 << 40) && last < (1 << 40));
+        t.heap_size = hs;
+        t.last_gc_heap_size = last;
+        t.maybe_gc();
+        if hs > 2 * last {
+            assert!(t.gc_state == GcState::Marking, "a cycle starts once the heap has doubled since the last cycle");
+        } else {
+            assert!(t.gc_state == GcState::Idle);
+        }
+        kani::cover!(hs > 2 * last, "req: triggers");
+        kani::cover!(hs <= 2 * last && hs > 0, "req: does not trigger");
+        std::mem::forget(t);
+    }
+}
+
+// ---- C07 (b): dropping a thread frees its objects ----
+// Liveness of an allocation is a solver-side predicate; a native replay cannot observe it,
+// so under playback the predicate is vacuous (a failure of these harnesses is reported as
+// "not reproducible natively", exit 2, see DESIGN).
+#[cfg(not(abra_verif_playback))]
+pub(super) fn live<T>(p: *const T) -> bool {
+    kani::mem::can_dereference(p)
+}
+#[cfg(abra_verif_playback)]
+pub(super) fn live<T>(_p: *const T) -> bool {
+    panic!("liveness predicate is not observable in a native replay")
+}
+
+vm_harness! {
+    #[kani::unwind(9)]
+    fn c07_thread_drop_frees_heap() {
+        let mut t = mk_thread(vec![Instr::Stop], vec![], vec![]);
+        let s = mk_string(&mut t, [b'a', b'b', 0], 2);
+        let st = Value::from(StructObject::new(vec![s], &mut t));
+        let e = Value::from(EnumObject::new(2, st, &mut t));
+        let ps = s.0 as *const StringObject;
+        let pe = e.0 as *const EnumObject;
+        assert!(live(ps) && live(pe));
+        drop(t);
+        assert!(!live(ps), "string freed with its thread");
+        assert!(!live(pe), "variant freed with its thread");
+        kani::cover!(true, "req: reachable");
+    }
+}
+#[kani::proof]
+#[kani::unwind(9)]
+fn c07_runtime_drop_frees_string_constants() {
+    // the shared read-only block owns the program's string constants
+    let mut shared = mk_shared(vec![Instr::Stop], vec![], vec![]);
+    let mut text = String::with_capacity(4);
+    text.push('h');
+    text.push('i');
+    let obj = StringObject::new_static(text, &mut shared);
+    shared.static_strings.push(obj);
+    let p = obj as *const StringObject;
+    assert!(live(p));
+    let arc = Arc::new(shared);
+    let (sender, receiver) = mpsc::channel();
+    std::mem::forget(receiver);
+    let t = VmGreenThread::new(arc.clone(), sender);
+    drop(t);
+    assert!(live(p), "constants stay alive while the runtime's shared block is alive");
+    drop(arc);
+    assert!(!live(p), "dropping the last owner releases the string constants");
+    kani::cover!(true, "req: reachable");
+}
